@@ -397,21 +397,8 @@ func (w *World) replay(r *FnResult, o *Obligation) *ReplayResult {
 		return rr
 	}
 	pdir := filepath.Dir(pp.GoFiles[0])
-	tmp, _ := os.MkdirTemp(tmpDir, "replay")
-	src := filepath.Join(tmp, "replay_test.go")
-	os.WriteFile(src, []byte(rr.Test), 0o644)
-	ov := map[string]map[string]string{"Replace": {filepath.Join(pdir, "zz_govc_replay_test.go"): src}}
-	ovData, _ := json.Marshal(ov)
-	ovFile := filepath.Join(tmp, "overlay.json")
-	os.WriteFile(ovFile, ovData, 0o644)
-	ctx, cancel := context.WithTimeout(context.Background(), 180*time.Second)
-	defer cancel()
-	args := []string{"test", "-overlay", ovFile, "-vet=off", "-tags", "verif", "-count=1", "-v", "-timeout", "60s", "-run", "^TestGovcReplay$", "."}
-	cmd := exec.CommandContext(ctx, "go", args...)
-	cmd.Dir = pdir
-	cmd.Env = append(os.Environ(), "GOFLAGS=-mod=mod", "GOPROXY=off")
-	out, _ := cmd.CombinedOutput()
-	rr.Cmd = "cd " + pdir + " && go " + strings.Join(args, " ")
+	out, _ := runReplayTest(pdir, rr.Test)
+	rr.Cmd = "cd " + pdir + " && go test -overlay <generated> -vet=off -tags verif -count=1 -v -timeout 60s -run ^TestGovcReplay$ ."
 	rr.Output = truncate(string(out), 3000)
 	if strings.Contains(string(out), "GOVC-REPLAY panic:") {
 		rr.Confirmed = true
@@ -459,4 +446,24 @@ func (w *World) smallModel(r *FnResult, o *Obligation) map[string]string {
 		return nil
 	}
 	return parseModel(res.out, o.Inputs)
+}
+
+// runReplayTest injects the test source into the package directory with
+// -overlay (nothing is written to /repo) and runs it.
+func runReplayTest(pdir, src string) (string, bool) {
+	tmp, _ := os.MkdirTemp(tmpDir, "replay")
+	file := filepath.Join(tmp, "replay_test.go")
+	os.WriteFile(file, []byte(src), 0o644)
+	ov := map[string]map[string]string{"Replace": {filepath.Join(pdir, "zz_govc_replay_test.go"): file}}
+	ovData, _ := json.Marshal(ov)
+	ovFile := filepath.Join(tmp, "overlay.json")
+	os.WriteFile(ovFile, ovData, 0o644)
+	ctx, cancel := context.WithTimeout(context.Background(), 180*time.Second)
+	defer cancel()
+	args := []string{"test", "-overlay", ovFile, "-vet=off", "-tags", "verif", "-count=1", "-v", "-timeout", "60s", "-run", "^TestGovcReplay$", "."}
+	cmd := exec.CommandContext(ctx, "go", args...)
+	cmd.Dir = pdir
+	cmd.Env = append(os.Environ(), "GOFLAGS=-mod=mod", "GOPROXY=off")
+	out, _ := cmd.CombinedOutput()
+	return string(out), strings.Contains(string(out), "GOVC-REPLAY panic:")
 }
